@@ -143,11 +143,19 @@ fn gen_urdf(rng: &mut Rng) -> Gen {
         }
         let mut ax = [0.0f64; 3];
         ax[axis_comp[j]] = signs[j] as f64;
-        let lim_kind = rng.usize(4);
+        let lim_kind = rng.usize(5);
         let limit_xml = match lim_kind {
             0 => {
                 limited[j] = false;
                 String::new()
+            }
+            // the usual form of a continuous joint: a <limit> element that carries effort / velocity only
+            4 => {
+                limited[j] = false;
+                if !features.iter().any(|f| f == "limit_without_bounds") {
+                    features.push("limit_without_bounds".to_string());
+                }
+                (*rng.pick(&["      <limit effort=\"0\" velocity=\"10\"/>\n", "      <limit velocity=\"3.14\"/>\n", "      <limit effort=\"12\" velocity=\"${radians(360)}\"/>\n"])).to_string()
             }
             1 => {
                 let lo = -(rng.int(10, 360) as f64);
@@ -256,6 +264,30 @@ fn extract(idx: u64, rng: &mut Rng, mon: &mut Mon) {
     let detail = |extra: serde_json::Value| json!({"urdf": g.text, "features": g.features, "names": g.names, "explicit_names": g.explicit,
         "generator": {"a1": g.a1, "a2": g.a2, "b": g.b, "c1": g.c1, "c2": g.c2, "c3": g.c3, "c4": g.c4, "signs": g.signs, "from": jf(&g.from), "to": jf(&g.to), "limited": g.limited}, "extra": extra});
     let layout = format!("{}:{}", g.features[0], g.features[1]);
+    // History: the same document is also read with an explicit list of its raw joint names, before or
+    // after the automatic reading, on the same thread. Neither reading may influence the other.
+    let cross = !g.explicit && rng.bool(0.5);
+    let cross_first = rng.bool(0.5);
+    let cross_check = |mon: &mut Mon, when: &str| {
+        let names: Option<[&str; 6]> = Some(std::array::from_fn(|j| g.names[j].as_str()));
+        let t = g.text.clone();
+        mon.count("extract.cross_mode_readings");
+        match guarded(move || from_urdf(t, &names).map_err(|e| e.to_string())) {
+            Err(msg) => mon.violation("extract:history:panic", "from_urdf with an explicit list of the raw joint names panicked", detail(json!({"when": when, "panic": msg}))),
+            Ok(Err(e)) => mon.violation(&format!("extract:history:explicit-raw-names-rejected:{}", when), "the document was rejected when read with an explicit list of its own raw joint names", detail(json!({"when": when, "error": e}))),
+            Ok(Ok(p)) => {
+                let same = [(g.a1, p.a1), (g.a2, p.a2), (g.b, p.b), (g.c1, p.c1), (g.c2, p.c2), (g.c3, p.c3), (g.c4, p.c4)].iter().all(|(x, y)| (x - y).abs() <= 1e-12) && g.signs == p.sign_corrections;
+                if !same {
+                    mon.violation(&format!("extract:history:explicit-raw-names-differ:{}", when), "reading with an explicit list of the raw joint names gives other parameters", detail(json!({"when": when})));
+                } else {
+                    mon.held();
+                }
+            }
+        }
+    };
+    if cross && cross_first {
+        cross_check(mon, "before-automatic");
+    }
     let p = match call(&g, &g.text) {
         Err(msg) => {
             mon.violation("extract:panic", "from_urdf panicked on a valid generated robot description", detail(json!({"panic": msg})));
@@ -269,6 +301,9 @@ fn extract(idx: u64, rng: &mut Rng, mon: &mut Mon) {
         Ok(Ok(p)) => p,
     };
     mon.count("extract.ok");
+    if cross && !cross_first {
+        cross_check(mon, "after-automatic");
+    }
     mon.seen("dof_reported_for_tcp_lists", format!("{}:{}", g.features.iter().any(|f| f == "explicit_names_with_tcp"), p.dof));
     let mut diffs: Vec<String> = vec![];
     for (n, x, y) in [("a1", g.a1, p.a1), ("a2", g.a2, p.a2), ("b", g.b, p.b), ("c1", g.c1, p.c1), ("c2", g.c2, p.c2), ("c3", g.c3, p.c3), ("c4", g.c4, p.c4)] {
